@@ -69,7 +69,7 @@ theorem step_w (kind : Nat → W.Full.Cmd) (hk : ∀ n, (kind n).handled = true)
     split at h
     · rename_i hok
       injection h with h; subst h
-      exact Or.inr ⟨ev, envOk_legit ev hok, sysOf_put _ _⟩
+      exact Or.inr ⟨ev, envOk_legit ev hok.1, sysOf_put _ _⟩
     · cases h
 
 theorem sinv_reach {kind : Nat → W.Full.Cmd} (hk : ∀ n, (kind n).handled = true) {caps : W.Full.Caps} {s : St}
@@ -203,7 +203,7 @@ theorem ginv_step (kind : Nat → W.Full.Cmd) (caps : W.Full.Caps) {s s' : St} {
       injection h with h; subst h
       refine ⟨hi.aok, fun ho => ?_⟩
       have ho' : s.owed = true := by
-        have h1 : (W.Full.step caps (sysOf s) ev).owed = s.owed := env_owed caps (sysOf s) ev hok
+        have h1 : (W.Full.step caps (sysOf s) ev).owed = s.owed := env_owed caps (sysOf s) ev hok.1
         have h2 : (put s.k (W.Full.step caps (sysOf s) ev)).owed = (W.Full.step caps (sysOf s) ev).owed := rfl
         rw [h2, h1] at ho; exact ho
       exact hi.link ho'
@@ -434,7 +434,7 @@ theorem sync_step (kind : Nat → W.Full.Cmd) (caps : W.Full.Caps) {s s' : St} {
     split at h
     · rename_i hok
       injection h with h; subst h
-      have h1 := env_lens caps (sysOf s) ev hok
+      have h1 := env_lens caps (sysOf s) ev hok.1
       have h2 : lens (put s.k (W.Full.step caps (sysOf s) ev)).core = lens (W.Full.step caps (sysOf s) ev).core := rfl
       rw [h2, h1]; exact hi
     · cases h
@@ -462,6 +462,104 @@ theorem sync_empty (s : St) (hs : Sync s) (q : Nat) (hc : K.cmdsOf s.k q = []) (
     have : x.cmds = [] := by simpa [K.cmdsOf, K.cmdsAt, hx] using hc
     rw [this] at h1
     exact List.eq_nil_of_length_eq_zero h1.symm
+
+/-! ### a scheduled tick event is handled -/
+
+theorem pinv_step (kind : Nat → W.Full.Cmd) (caps : W.Full.Caps) {s s' : St} {t : Th} (hi : PInv s.k)
+    (h : step kind caps s t = some s') : PInv s'.k := by
+  cases t with
+  | app j =>
+    simp only [step] at h
+    cases ha : s.k.apps[j]? with
+    | none => simp [ha] at h
+    | some a =>
+      simp only [ha] at h
+      cases hk : K.step s.k (.app j) with
+      | none => simp [hk] at h
+      | some k1 =>
+        simp [hk] at h
+        have hk' : K.stepApp s.k j a = some k1 := by simpa [K.step, ha] using hk
+        have hp := pinv_app s.k k1 j a hk' hi
+        obtain ⟨_, _, _, hev, _⟩ := stepApp_proto s.k k1 j a hk'
+        by_cases hen : isEnq a = true
+        · simp only [hen, if_true] at h; subst h
+          exact pinv_evt_same k1 hp _ hev.symm
+        · simp only [hen] at h; subst h; exact hp
+  | async =>
+    simp only [step] at h
+    cases hk : K.step s.k .async with
+    | none => simp [hk] at h
+    | some k1 =>
+      simp [hk] at h
+      have hp := pinv_async s.k k1 hk hi
+      by_cases hr : s.k.r = .tick
+      · simp only [hr, if_true] at h; subst h
+        have hev : k1.evt = true := by
+          simp only [K.step, hr] at hk
+          split at hk
+          · cases hk
+          · injection hk with hk; subst hk; rfl
+        exact pinv_evt_same k1 hp _ hev.symm
+      · simp only [hr, if_false] at h; subst h; exact hp
+  | eng =>
+    simp only [step] at h
+    split at h
+    · rename_i hc
+      injection h with h; subst h
+      exact pinv_at_loop s.k hc.1 hi _ _ _
+    · split at h
+      · cases h
+      · cases hk : K.step s.k .eng with
+        | none => simp [hk] at h
+        | some k1 =>
+          simp [hk] at h; subst h
+          rename_i hn ht
+          exact pinv_eng_other s.k k1 hn (by simpa using ht) hk hi
+  | env ev =>
+    simp only [step] at h
+    split at h
+    · rename_i hc
+      injection h with h; subst h
+      exact pinv_at_loop s.k hc.2 hi _ s.k.qs s.k.apps
+    · cases h
+
+theorem pinv_reach {kind : Nat → W.Full.Cmd} {caps : W.Full.Caps} {s : St} (h : Reach kind caps s) : PInv s.k := by
+  induction h with
+  | init cfg scripts h => exact pinv_init scripts _
+  | step t _ hs ih => exact pinv_step _ _ ih hs
+
+/-! ### every reachable state is a state of a legitimate `W.Full` run from `Full.init` -/
+
+theorem reach_run {kind : Nat → W.Full.Cmd} (hk : ∀ n, (kind n).handled = true) {caps : W.Full.Caps} {s : St}
+    (h : Reach kind caps s) :
+    ∃ cfg evs, (∀ ev ∈ evs, ev.legit = true) ∧ sysOf s = W.Full.run caps (W.Full.init cfg) evs := by
+  induction h with
+  | init cfg scripts h => exact ⟨cfg, [], by simp, rfl⟩
+  | step t _ hs ih =>
+    obtain ⟨cfg, evs, hl, he⟩ := ih
+    rcases step_w kind hk caps hs with h1 | ⟨ev, hlev, h1⟩
+    · exact ⟨cfg, evs, hl, h1.trans he⟩
+    · refine ⟨cfg, evs ++ [ev], ?_, ?_⟩
+      · intro e hm
+        rcases List.mem_append.mp hm with hm | hm
+        · exact hl e hm
+        · simp at hm; subst hm; exact hlev
+      · rw [h1, he]; simp [W.Full.run, List.foldl_append]
+
+theorem sync_all_empty (s : St) (hs : Sync s) (h : ∀ q ∈ s.core.d.qs, q.cmds = []) (j : Nat) : K.cmdsOf s.k j = [] := by
+  unfold Sync lens at hs
+  have h1 : (s.k.qs.map (fun q => q.cmds.length))[j]? = (s.core.d.qs.map (fun q => q.cmds.length))[j]? := by rw [hs]
+  simp only [List.getElem?_map] at h1
+  cases hx : s.k.qs[j]? with
+  | none => simp [K.cmdsOf, K.cmdsAt, hx]
+  | some x =>
+    cases hw : s.core.d.qs[j]? with
+    | none => simp [hx, hw] at h1
+    | some w =>
+      simp only [hx, hw, Option.map_some, Option.some.injEq] at h1
+      have hwe := h w (K.mem_of_get _ _ _ hw)
+      rw [hwe] at h1
+      simpa [K.cmdsOf, K.cmdsAt, hx] using List.eq_nil_of_length_eq_zero h1
 
 end F
 end E
